@@ -149,7 +149,8 @@ def typings(text: str) -> list[str]:
         return ["none", "blank"]
     if RE_INT.match(text) and len(text) < 15 and text != "-0":
         t += ["int", "ifloat"]
-    elif RE_DEC.match(text) and len(text) < 15:
+    elif RE_DEC.match(text) and len(text) < 25:
+        # any decimal that is the shortest round-tripping spelling of its double (up to 17 digits)
         try:
             f = float(text)
             if repr(f) == text and not f.is_integer():
@@ -228,6 +229,7 @@ def to_xlsx(grids: list[dict]) -> bytes:
     wb = openpyxl.Workbook()
     wb.remove(wb.active)
     ifloats = {}
+    literals = {}
     for si, g in enumerate(grids, start=1):
         ws = wb.create_sheet(title=g["name"])
         for ri, row in enumerate(g["grid"], start=1):
@@ -240,19 +242,24 @@ def to_xlsx(grids: list[dict]) -> bytes:
                     cell.data_type = "s"  # never a formula
                 if ty == "ifloat":
                     ifloats.setdefault(si, []).append(f"{get_column_letter(ci)}{ri}")
+                elif ty == "float":
+                    # openpyxl serialises floats with %.16g; write the exact shortest repr instead
+                    literals.setdefault(si, {})[f"{get_column_letter(ci)}{ri}"] = repr(v)
     buf = io.BytesIO()
     wb.save(buf)
-    if not ifloats:
+    if not ifloats and not literals:
         return buf.getvalue()
     out = io.BytesIO()
     with zipfile.ZipFile(io.BytesIO(buf.getvalue())) as zin, zipfile.ZipFile(out, "w", zipfile.ZIP_DEFLATED) as zout:
         for item in zin.infolist():
             data = zin.read(item.filename)
             m = re.fullmatch(r"xl/worksheets/sheet(\d+)\.xml", item.filename)
-            if m and int(m.group(1)) in ifloats:
+            if m and (int(m.group(1)) in ifloats or int(m.group(1)) in literals):
                 text = data.decode("utf-8")
-                for ref in ifloats[int(m.group(1))]:
+                for ref in ifloats.get(int(m.group(1)), []):
                     text, n = re.subn(r'(<c r="%s"[^>]*><v>)(-?\d+)(</v>)' % ref, r"\g<1>\g<2>.0\g<3>", text)
+                for ref, lit in literals.get(int(m.group(1)), {}).items():
+                    text, n = re.subn(r'(<c r="%s"[^>]*><v>)([^<]*)(</v>)' % ref, lambda mm: mm.group(1) + lit + mm.group(3), text)
                 data = text.encode("utf-8")
             zout.writestr(item, data)
     return out.getvalue()
@@ -377,7 +384,9 @@ class Scratch:
 
 
 def channels_for(container: str) -> list[str]:
-    ch = ["path", "pathlike", "bytes", "bytesio", "file"]
+    # bytesio_end: a BytesIO the content was just written to (position at the end);
+    # bytesio_peeked: a BytesIO whose first bytes were read; bytesio_twice: the same BytesIO converted a second time
+    ch = ["path", "pathlike", "bytes", "bytesio", "file", "bytesio_end", "bytesio_peeked", "bytesio_twice"]
     if container in ("md", "csv"):
         ch.append("str")
     return ch
@@ -390,8 +399,16 @@ def deliver(container: str, data, channel: str, scratch: Scratch, stem: str = "d
         return data, (lambda: None), False
     if channel == "bytes":
         return raw, (lambda: None), False
-    if channel == "bytesio":
+    if channel in ("bytesio", "bytesio_twice"):
         return io.BytesIO(raw), (lambda: None), False
+    if channel == "bytesio_end":
+        b = io.BytesIO()
+        b.write(raw)
+        return b, (lambda: None), False
+    if channel == "bytesio_peeked":
+        b = io.BytesIO(raw)
+        b.read(4)
+        return b, (lambda: None), False
     p = scratch.file(stem, EXT[container], raw)
 
     def rm():
